@@ -440,13 +440,13 @@ class ComparisonReporter:
 
     def _report_throughput(self, baseline_stats, contender_stats, task):
         b_min = baseline_stats.metrics(task)["throughput"]["min"]
-        b_mean = baseline_stats.metrics(task)["throughput"]["mean"]
+        b_mean = baseline_stats.metrics(task)["throughput"].get("mean")
         b_median = baseline_stats.metrics(task)["throughput"]["median"]
         b_max = baseline_stats.metrics(task)["throughput"]["max"]
         b_unit = baseline_stats.metrics(task)["throughput"]["unit"]
 
         c_min = contender_stats.metrics(task)["throughput"]["min"]
-        c_mean = contender_stats.metrics(task)["throughput"]["mean"]
+        c_mean = contender_stats.metrics(task)["throughput"].get("mean")
         c_median = contender_stats.metrics(task)["throughput"]["median"]
         c_max = contender_stats.metrics(task)["throughput"]["max"]
 
@@ -468,8 +468,8 @@ class ComparisonReporter:
         return self._report_percentiles("service time", task, baseline_service_time, contender_service_time)
 
     def _report_processing_time(self, baseline_stats, contender_stats, task):
-        baseline_processing_time = baseline_stats.metrics(task)["processing_time"]
-        contender_processing_time = contender_stats.metrics(task)["processing_time"]
+        baseline_processing_time = baseline_stats.metrics(task).get("processing_time") or {}
+        contender_processing_time = contender_stats.metrics(task).get("processing_time") or {}
         return self._report_percentiles("processing time", task, baseline_processing_time, contender_processing_time)
 
     def _report_percentiles(self, name, task, baseline_values, contender_values):
